@@ -118,6 +118,9 @@ def _case(draw, op, light=False):
         targets = sorted(gen.EAM_TARGETS)
     elif op == "dlpoly_nr_not_multiple_of_4":
         targets = ["DLPOLY", "DL_POLY"]
+    elif op == "target_wrong_case":
+        # the documented alternative spellings are spellings too: 'dl_poly' or 'LAMMPS_EAM_ALLOY' name no target
+        targets = draw(st.sampled_from([["DL_POLY"], ["lammps_eam_alloy"], None]))
     if light:
         # small models for the byte-budgeted coverage-guided campaign (hypothesis' fuzz_one_input caps the
         # choice buffer at 8 kB, which the full generator exceeds)
@@ -229,7 +232,11 @@ def mutate(case):
     if op == "unknown_target":
         settab("target", m["target"] + "X")
     elif op == "target_wrong_case":
-        settab("target", m["target"].swapcase())
+        t = m["target"]
+        if t == "lammps_eam_alloy" and site % 2:
+            t = "LAMMPS_eam_alloy"
+        variants = [x for x in (t.swapcase(), t.lower(), t.upper(), t.capitalize(), t.title()) if x not in VALID_TARGETS]
+        settab("target", variants[(site // 2) % len(variants)])
     elif op == "grid_all_three":
         settab("nr", "11"), settab("dr", "0.1"), settab("cutoff", "1.0")
     elif op == "grid_step_alone":
